@@ -44,7 +44,7 @@ TRUSTED = ["Model/MapResume.v mirrors _run.py/_prepare.py/adaptive.py by hand; N
            "slice.indices are mirrored by Base/PyRange.v (compared exhaustively with CPython on every run)",
            "harness/mapsym.py structural user functions and canonicalisation of arrays"]
 
-STORAGES = ["file_array", "file_array", "dict"]
+STORAGES = ["file_array"] * 9 + ["dict"] * 8 + ["shared_memory_dict"] * 2
 
 
 # ------------------------------------------------------------------ request helpers
@@ -70,8 +70,32 @@ def gen_req(rng, max_funcs=3, max_size=3, small=False):
                                storages=("file_array",))
         if mapgen.request_size(r) > 30:
             continue
+        if observation_weight(r) > 15000:   # nested structural strings blow up: keep the Coq literals small
+            continue
         r["storage"] = rng.choice(STORAGES)
         return r
+
+
+def observation_weight(req):
+    """Characters of the call log plus of all outputs of one uninterrupted run (generator-side size guard only)."""
+    import numpy as np
+
+    log = mapsym.CallLog()
+    with _quiet(), mapsym.TempRun() as d:
+        try:
+            p = mapsym.build_pipeline(req, log)
+            r = p.map(mapsym.map_inputs(req), run_folder=d, internal_shapes=mapsym.internal_arg(req),
+                      storage="dict", parallel=False)
+        except Exception:  # noqa: BLE001
+            return 0
+        n = sum(len(x) for x in log.read())
+        for v in r.values():
+            out = v.output
+            if isinstance(out, np.ndarray):
+                n += sum(len(mapsym.canon(x)) for x in out.reshape(-1))
+            else:
+                n += len(mapsym.canon(out))
+    return n
 
 
 def root_axes(req):
@@ -422,12 +446,38 @@ def run_range(c):
     return [out, ints]
 
 
+@contextlib.contextmanager
+def managed_managers():
+    """SharedMemoryDictArray starts one multiprocessing.Manager per array and never shuts it down (the interpreter
+    then hangs at exit): record the managers created inside the block and shut them down afterwards."""
+    import multiprocessing
+
+    real = multiprocessing.Manager
+    made = []
+
+    def manager(*a, **k):
+        m = real(*a, **k)
+        made.append(m)
+        return m
+
+    multiprocessing.Manager = manager
+    try:
+        yield made
+    finally:
+        multiprocessing.Manager = real
+        for m in made:
+            with contextlib.suppress(Exception):
+                m.shutdown()
+
+
 def run_impl(c):
     k = c["kind"]
     if k == "parts":
-        return run_parts(c)
+        with managed_managers():
+            return run_parts(c)
     if k == "learners":
-        return run_learners(c)
+        with managed_managers():
+            return run_learners(c)
     if k == "range":
         return run_range(c)
     if k == "link":
@@ -548,7 +598,7 @@ def _learner_shape(req, split):
     """The structure of the learners (keys x generations x learners) as the implementation creates them."""
     from pipefunc.map.adaptive import create_learners
 
-    with _quiet(), mapsym.TempRun() as d:
+    with _quiet(), mapsym.TempRun() as d, managed_managers():
         try:
             p = mapsym.build_pipeline(req, mapsym.CallLog())
             L = create_learners(p, mapsym.map_inputs(req), d, internal_shapes=mapsym.internal_arg(req),
